@@ -80,6 +80,7 @@ type Contract struct {
 	Decreases   map[int]*Clause
 	Variant     *Clause // function-level "decreases e": termination measure for (mutually) recursive calls
 	Guarded     []*GuardClause
+	SortKeys    []*Clause // "sortkey e($elem)": the key by which the function's sort.Slice call orders its slice
 	Sites       []*Clause
 	ExitsIf     []*Clause
 	PanicsIf    []*Clause
@@ -234,7 +235,7 @@ func displayName(f *types.Func) string {
 	return pkg + f.Name()
 }
 
-var kwRe = regexp.MustCompile(`^(requires|ensures|returns|assigns|loop|site|pure|trusted|noinline|safety|exits_if|decreases|guarded|panics_if|props|is|let|errdrop)\b`)
+var kwRe = regexp.MustCompile(`^(requires|ensures|returns|assigns|loop|site|pure|trusted|noinline|safety|exits_if|decreases|guarded|sortkey|panics_if|props|is|let|errdrop)\b`)
 
 func (w *World) loadContracts(p *packages.Package) error {
 	dir := ""
@@ -462,6 +463,11 @@ func (w *World) parseBlock(p *packages.Package, path string, b *rawBlock) error 
 				return err
 			}
 			c.Sites = append(c.Sites, cl)
+		case "sortkey":
+			if err := parse(rest); err != nil {
+				return err
+			}
+			c.SortKeys = append(c.SortKeys, cl)
 		case "let":
 			eqi := strings.Index(rest, "=")
 			if eqi < 0 {
